@@ -583,7 +583,7 @@ class ReferenceColumn(BaseReferenceColumn):
     # Allow float values that are small integers. In practice, this only turns out to be relevant
     # in rare cases (such as undo of Ref->Numeric conversion).
     if type(value) == float and value.is_integer():   # pylint:disable=unidiomatic-typecheck
-      if value > 0 and objtypes.is_int_short(int(value)):
+      if value >= 0 and objtypes.is_int_short(int(value)):
         return int(value)
     return value
 
